@@ -3,6 +3,7 @@ package sym
 import (
 	"fmt"
 	"go/types"
+	"math"
 	"net/netip"
 	"reflect"
 	"regexp"
@@ -200,6 +201,15 @@ func registerIntrinsics(e *Engine) {
 			bs = append(bs, v.(*Term))
 		}
 		e.setResult(st, c, e.strIndex(StrV{B: bs}, StrV{B: []*Term{a[1].(*Term)}}))
+		return nil
+	}
+	// ---- math: concrete floats only
+	I["math.Min"] = func(e *Engine, st *State, c ssa.CallInstruction, a []Value) []*State {
+		e.setResult(st, c, FloatV{math.Min(a[0].(FloatV).F, a[1].(FloatV).F)})
+		return nil
+	}
+	I["math.Max"] = func(e *Engine, st *State, c ssa.CallInstruction, a []Value) []*State {
+		e.setResult(st, c, FloatV{math.Max(a[0].(FloatV).F, a[1].(FloatV).F)})
 		return nil
 	}
 	// ---- math/bits population count (the 32-bit version indexes a table; use SWAR terms instead)
